@@ -87,7 +87,9 @@ func validateDecimal64String(s string, fractionDigitsAllowed int) error {
 			return newValidateDecimal64Error(
 				fmt.Sprintf("Error parsing digits: %s", err))
 		}
-		return nil
+		// No fraction: carry on with ".0" so that the value is still
+		// checked against the bounds of the type.
+		sSplit = append(sSplit, "0")
 	}
 	if len(sSplit) > 2 {
 		return newValidateDecimal64Error(errorStringExcessDecimalPoint)
